@@ -56,6 +56,17 @@ CLAIMED = {
              "The runtime observables (arguments bit-identical, results bit-identical across poisoned allocations and repeated calls, "
              "int vs float copies) are checked on the real code on every run; CPython/numpy aliasing itself is not modelled.", ref="8 (C16), 4.4-4.6",
              tech="Lean 4 decide/rfl over translator-emitted facts + runtime purity oracle (partial)"),
+ "C08": dict(text="Theorems on the regenerated g_using_F (core of all 12 variants, C09): removed + corrected = input for all inputs, cutoffs, "
+             "options; d_corrected = sqrt(d_in^2 + d_removed^2) entrywise; removed (and its uncertainty) is a function of "
+             "crop(r,g,dg; 0,cutoff) only; with plain options removed(Q) = T[r<=c, 4 pi rho r g](Q) and vanishes when g vanishes on "
+             "[0,cutoff]; returned real-space triple = F_to_g of the returned corrected function (rfl). S/F_K/DCS additive senses "
+             "follow through C09 + C03 for Q>0 and are checked by the oracle on the real code.", ref="8 (C08)",
+             tech="Lean 4 theorems on translator output (normal form of g_using_F via crop/transform lemmas) + correspondence"),
+ "C09": dict(text="For all inputs/cutoffs/options each of the other 11 variants = conversion-out ; g_using_F ; conversion-in on all nine outputs "
+             "including the three uncertainty outputs (rfl on regenerated definitions, so a dropped or renamed uncertainty argument "
+             "breaks it); no call site in FourierFilter passes a swallowed keyword (decide). Oracle converts all 12 variants' outputs "
+             "to (g, Q[S-1]) on the real code.", ref="8 (C09)",
+             tech="Lean 4 definitional-unfolding theorems on translator output + call-binding facts + conversion oracle"),
 }
 
 m = {"version": 1, "setup_cmd": "./setup.sh",
